@@ -14,7 +14,15 @@ import (
 func init() {
 	props["C12"] = func(r *Report) {
 		c12(r)
-		r.Guard("C12.R9", "every lock taken is released on every exit: the group / handler locks", func() { lockPairRule(r, "fifo", "priority", "filter", "martianhttp", "parse", "servemux") })
+		r.Guard("C12.R9", "every lock taken is released on every exit: the group / handler locks", func() {
+			lockPairRule(r, "fifo", "priority", "filter", "martianhttp", "parse", "servemux")
+			// ... and held while the child lists are read or changed (a group can be reconfigured
+			// through its Add/Remove methods while traffic runs through it)
+			for _, pkg := range []string{"fifo", "priority"} {
+				guardedFieldsRule(r, pkg, "Group", "reqmu", []string{"reqmods"}, "a reconfiguration races with traffic: a child is skipped, run twice, or the slice is read while it is being shifted")
+				guardedFieldsRule(r, pkg, "Group", "resmu", []string{"resmods"}, "a reconfiguration races with traffic: a child is skipped, run twice, or the slice is read while it is being shifted")
+			}
+		})
 	}
 	floors["C12"] = map[string]int{"C12.R1": 35, "C12.R2": 38, "C12.R3": 58, "C12.R4": 28, "C12.R5": 4, "C12.R6": 8, "C12.R7": 5, "C12.R8": 6, "C12.R9": 1}
 }
